@@ -232,6 +232,16 @@ fn c13_roundtrip() -> R {
                 op(name);
                 let r = match k { 0 => cur.compress(), 1 => cur.compress_subject(), 2 => cur.uncompress(), _ => cur.uncompress_subject() };
                 trace.push(name);
+                // an operation may only be refused for its documented reason
+                if r.is_err() {
+                    let legit = match k {
+                        0 => matches!(kind(&cur), Kind::Elided | Kind::Encrypted),
+                        1 => matches!(kind(&cur.subject()), Kind::Elided | Kind::Encrypted),
+                        2 => kind(&cur) != Kind::Compressed,
+                        _ => false,
+                    };
+                    ensure!(legit, "a compress / uncompress step failed on an honest envelope", "{:?}: {}", trace, r.as_ref().err().map(|e| e.to_string()).unwrap_or_default());
+                }
                 if let Ok(x) = r {
                     ensure!(dg(&x) == dg(&e), "digest changed along a compress/uncompress chain", "{:?}", trace);
                     if let Err(m) = well_formed(&x) { return rt::viol("chain result not canonical", format!("{:?}: {}", trace, m)); }
